@@ -29,6 +29,8 @@ def s_lex_random(rng):
     op.update(gen.container_variants(rng, s))
     if maybe(rng, 0.25):
         op['consume'] = rng.choice([0, 1, 1, 2, 3, 5])      # mixed use of the token iterator
+    elif maybe(rng, 0.2):
+        op['beside'] = gen.gen_penman_string(rng, wf=True) if maybe(rng, 0.6) else gen.gen_token_soup(rng)
     return op
 
 
@@ -69,6 +71,9 @@ def s_parse_random(rng):
     op['via'] = rng.choice(['internal', 'public', 'codec'])     # penman.parse / PENMANCodec().parse / the internals
     if op['op'] == 'iterparse' and maybe(rng, 0.3):
         op['consume'] = rng.choice([1, 1, 2, 3])
+    elif op['op'] == 'iterparse' and maybe(rng, 0.3):
+        # a second iterparse over another stream, advanced graph by graph alongside this one
+        op['beside'] = '\n'.join(gen.gen_penman_string(rng) for _ in range(rng.randint(1, 3)))
     return op
 
 
